@@ -828,7 +828,7 @@ def r7_expand_repo_macros(text, macro_file, names=("tx",)):
             if len(args) != 2:
                 raise LostAnchor("R7: %s! invoked with %d arguments" % (name, len(args)))
             inst = body.replace("$" + a, args[0].strip()).replace("$" + b, args[1].strip())
-            text = text[:r.start()] + "{" + inst + "}" + text[pc + 1:]
+            text = text[:r.start()] + "({" + inst + "})" + text[pc + 1:]
             cnt += 1
     return text, cnt
 
